@@ -126,6 +126,7 @@ static Node *expr_stmt(Token **rest, Token *tok);
 static Node *expr(Token **rest, Token *tok);
 static int64_t eval(Node *node);
 static int64_t eval2(Node *node, char ***label);
+static int64_t eval3(Node *node, char ***label);
 static int64_t eval_rval(Node *node, char ***label);
 static bool is_const_expr(Node *node);
 static Node *assign(Token **rest, Token *tok);
@@ -1848,6 +1849,22 @@ static int64_t eval(Node *node) {
 // number. The latter form is accepted only as an initialization
 // expression for a global variable.
 static int64_t eval2(Node *node, char ***label) {
+  int64_t val = eval3(node, label);
+
+  // The host computes in 64 bits. Wrap the result to the width and
+  // signedness of the expression's type so that it is the value the
+  // same expression yields at run time.
+  if (is_integer(node->ty)) {
+    switch (node->ty->size) {
+    case 1: return node->ty->is_unsigned ? (int64_t)(uint8_t)val : (int64_t)(int8_t)val;
+    case 2: return node->ty->is_unsigned ? (int64_t)(uint16_t)val : (int64_t)(int16_t)val;
+    case 4: return node->ty->is_unsigned ? (int64_t)(uint32_t)val : (int64_t)(int32_t)val;
+    }
+  }
+  return val;
+}
+
+static int64_t eval3(Node *node, char ***label) {
   add_type(node);
 
   if (is_flonum(node->ty))
@@ -1910,17 +1927,13 @@ static int64_t eval2(Node *node, char ***label) {
     return eval(node->lhs) && eval(node->rhs);
   case ND_LOGOR:
     return eval(node->lhs) || eval(node->rhs);
-  case ND_CAST: {
-    int64_t val = eval2(node->lhs, label);
-    if (is_integer(node->ty)) {
-      switch (node->ty->size) {
-      case 1: return node->ty->is_unsigned ? (uint8_t)val : (int8_t)val;
-      case 2: return node->ty->is_unsigned ? (uint16_t)val : (int16_t)val;
-      case 4: return node->ty->is_unsigned ? (uint32_t)val : (int32_t)val;
-      }
+  case ND_CAST:
+    if (node->ty->kind == TY_BOOL) {
+      if (is_flonum(node->lhs->ty))
+        return eval_double(node->lhs) != 0;
+      return eval2(node->lhs, label) != 0;
     }
-    return val;
-  }
+    return eval2(node->lhs, label);
   case ND_ADDR:
     return eval_rval(node->lhs, label);
   case ND_LABEL_VAL:
